@@ -18,7 +18,7 @@ LEVEL = 'exploration'
 RULE = ('1-6 top-level tasks whose parameters are generated trees over the supported grammar (NaN excluded), biased to '
         'collections of tasks and enums (the tutorial\'s aggregation pattern), over 12 types incl. NV/NVX (prefix names), vu.TV/'
         'vu2.TV (same qualname in two modules), JV (custom BaseCache format), P2V (PickleCache subclass sharing the pickle__ '
-        'prefix) and ZV (cache=None); all are cached into one storage (LocalStorage, or FsspecStorage on fsspec's LocalFileSystem) by a serial run; then cached_tasks(S) is queried for '
+        'prefix) and ZV (cache=None); all are cached into one storage (LocalStorage, or FsspecStorage on the fsspec LocalFileSystem) by a serial run; then cached_tasks(S) is queried for '
         'generated type subsets S from a fresh Lab. Oracle: the returned list matches, one-to-one, the cached tasks (top-level and '
         'nested) whose type is in S - each == the original, same cache_key, result_meta == the meta the caching run attached; '
         'nothing for other types/cache formats; run_tasks(returned) returns the stored values with zero run() calls; and '
